@@ -32,6 +32,7 @@ pub fn decode(tape: &[u16]) -> Case {
     let spec = sched_spec(&mut t);
     if soup {
         let input = input_in(&mut t, &InputOpts::default(), enc);
+        let input = crate::gens::input::maybe_long(&mut t, input, 8);
         let cuts = spec.resolve(input.len());
         return Case::Soup { input, cuts, cfg };
     }
